@@ -135,9 +135,9 @@ Section Row.
     | _, _, _ => false
     end.
   Definition sum_guard (l : list esa) : bool :=
-    match min_list (map snd l) with
+    match sum_min l with
     | None => false
-    | Some m => forallb (fun x => snd x - m <? 31) l
+    | Some m => forallb (fun x => q4_is_zero (fst x) || (snd x - m <? 31)) l
                 && (zsum (map (fun x => norm1 (fst x) * 2 ^ (snd x - m)) l) <? H32)
     end.
   Definition eval_guard (c : compiled) : bool :=
